@@ -35,7 +35,9 @@ def register(reg):
                   "implies(old(self._max_n) is not None, old(self._n) == n and old(self._max_n) == n)"),
                  ("r_untouched", "self._r == old(self._r)")],
         frame=["_n", "_max_n"],
-        props=("C10",), exc_props={"ValueError": ("C10",), "RuntimeError": ("C10",), "*": ("C10",)}))
+        # (C08 too: after a rejected call max_n must still be "unknown or the true number of steps")
+        props=("C10", "C08"), exc_props={"ValueError": ("C10", "C08"), "RuntimeError": ("C10", "C08"),
+                                         "*": ("C10", "C08")}))
 
     # F7 ----------------------------------------------------------------- observers
     for name, fld, ty in (("n", "_n", "int"), ("r", "_r", "int"), ("max_n", "_max_n", "optint")):
